@@ -140,6 +140,15 @@ impl ConnectionState {
         reply_text: String,
     ) -> Result<()> {
         error!("{} - closing connection", reply_text);
+        // reply-text is a short string: at most 255 bytes go on the wire
+        let mut reply_text = reply_text;
+        if reply_text.len() > 255 {
+            let mut end = 255;
+            while !reply_text.is_char_boundary(end) {
+                end -= 1;
+            }
+            reply_text.truncate(end);
+        }
         let close = ConnectionClose {
             reply_code: reply_code.get_id(),
             reply_text,
